@@ -29,7 +29,7 @@ func init() {
 		"header, signature), unbound fields (outer version, unprotected headers), entry swap/duplication/removal, cross-voucher "+
 		"splices of header and entries, wrong signers and wrong-kind next owners offered to ExtendVoucher; library verification "+
 		"vector (VerifyHeader, VerifyManufacturerKey, VerifyCertChainHash, VerifyEntries, OwnerPublicKey) vs the Lean voucher "+
-		"model (Lean SHA-2/HMAC, signature primitive and key parsing answered by Go's stdlib); distinct = distinct encodings", c04)
+		"model (Lean SHA-2/HMAC, signature primitive and key parsing answered by Go's stdlib); the header step also as a device with HMAC-SHA256 only runs it; distinct = distinct encodings", c04)
 }
 
 // keyInfo describes a parsed public key for the model.
